@@ -536,3 +536,35 @@ func hashKey(parts ...any) string {
 	}
 	return hex.EncodeToString(h.Sum(nil)[:8])
 }
+
+// weightedGate bounds the total weight of cases running at once (memory: big lattices are run a few at a time).
+type weightedGate struct {
+	mu   sync.Mutex
+	cond *sync.Cond
+	cap  int64
+	used int64
+}
+
+func newGate(capacity int64) *weightedGate {
+	g := &weightedGate{cap: capacity}
+	g.cond = sync.NewCond(&g.mu)
+	return g
+}
+
+func (g *weightedGate) enter(w int64) func() {
+	if w > g.cap {
+		w = g.cap
+	}
+	g.mu.Lock()
+	for g.used+w > g.cap {
+		g.cond.Wait()
+	}
+	g.used += w
+	g.mu.Unlock()
+	return func() {
+		g.mu.Lock()
+		g.used -= w
+		g.mu.Unlock()
+		g.cond.Broadcast()
+	}
+}
